@@ -35,6 +35,15 @@ def make_span(spec):
         return list(range(o, o + n))
     if ty == 'list_str':
         return [f'p{o + i}' for i in range(n)]
+    if ty == 'list_dup_inner':
+        # a label repeated strictly inside the span (first and last labels stay unique); positional solving is unaffected
+        items = [f'p{o + i}' for i in range(n)]
+        if n >= 4:
+            items[n // 2] = items[n // 2 - 1]
+        return items
+    if ty == 'list_dup':
+        # a whole cycle of labels repeated, like quarters over several years: only positions identify a period
+        return [f'q{i % 4}' for i in range(n)]
     if ty == 'list_mixed':
         return [_MIXED[(o + i) % len(_MIXED)] if i < len(_MIXED) else ('more', i) for i in range(n)]
     if ty == 'np_int':
